@@ -166,6 +166,40 @@ static void walk(gen_t *g, binson_parser *p, const uint8_t *doc, size_t size, ch
     if (!hostile) while (!t.left && !t.fresh && t.sp > 0) { if (!call_op(p, doc, size, t.stk[t.sp-1] == 'O' ? "lo" : "la", NULL, 0, 0, &t)) break; }
 }
 
+/* C10: walk everything with the parser, hand every decoded name/value to the writer, compare with the input */
+static int transcribe_doc(binson_parser *p, const uint8_t *doc, size_t size, char root)
+{
+    size_t cap = size + 16; uint8_t *out = (uint8_t *) malloc(cap); binson_writer w; binson_writer_init(&w, out, cap);
+    char stk[300]; int sp = 0; long guard = 0; int ok = 1;
+    bool e = (root == 'O') ? binson_parser_go_into_object(p) : binson_parser_go_into_array(p);
+    if (!e) { free(out); return 0; }
+    if (root == 'O') binson_write_object_begin(&w); else binson_write_array_begin(&w);
+    stk[sp++] = root;
+    while (sp > 0 && ok && guard++ < 1000000) {
+        if (binson_parser_next(p)) {
+            if (stk[sp-1] == 'O') { bbuf *n = binson_parser_get_name(p); if (!n) { ok = 0; break; } binson_write_name_with_len(&w, (const char *) n->bptr, n->bsize); }
+            switch (binson_parser_get_type(p)) {
+            case BINSON_TYPE_BOOLEAN: binson_write_boolean(&w, binson_parser_get_boolean(p)); break;
+            case BINSON_TYPE_INTEGER: binson_write_integer(&w, binson_parser_get_integer(p)); break;
+            case BINSON_TYPE_DOUBLE:  binson_write_double(&w, binson_parser_get_double(p)); break;
+            case BINSON_TYPE_STRING: { bbuf *b = binson_parser_get_string_bbuf(p); if (!b) { ok = 0; break; } binson_write_string_with_len(&w, (const char *) b->bptr, b->bsize); break; }
+            case BINSON_TYPE_BYTES:  { bbuf *b = binson_parser_get_bytes_bbuf(p); if (!b) { ok = 0; break; } binson_write_bytes(&w, b->bptr, b->bsize); break; }
+            case BINSON_TYPE_OBJECT: if (sp >= 299 || !binson_parser_go_into_object(p)) { ok = 0; break; } binson_write_object_begin(&w); stk[sp++] = 'O'; break;
+            case BINSON_TYPE_ARRAY:  if (sp >= 299 || !binson_parser_go_into_array(p)) { ok = 0; break; } binson_write_array_begin(&w); stk[sp++] = 'A'; break;
+            default: ok = 0; break;
+            }
+        } else {
+            bool l = (stk[sp-1] == 'O') ? binson_parser_leave_object(p) : binson_parser_leave_array(p);
+            if (!l) { ok = 0; break; }
+            if (stk[sp-1] == 'O') binson_write_object_end(&w); else binson_write_array_end(&w);
+            sp--;
+        }
+    }
+    if (ok && (p->error_flags != BINSON_ERROR_NONE || w.error_flags != BINSON_ERROR_NONE || binson_writer_get_counter(&w) != size || memcmp(out, doc, size) != 0)) ok = 0;
+    free(out);
+    return ok;
+}
+
 #include <dirent.h>
 /* --corpus DIR: every file of the repository's test corpus is initialised, verified and fully traversed */
 static int corpus_run(const char *dir, int limit, uint64_t seed)
@@ -191,6 +225,7 @@ static int corpus_run(const char *dir, int limit, uint64_t seed)
         track_t t0; memset(&t0, 0, sizeof t0); t0.fresh = true;
         call_op(p, doc, (size_t) len, "v", NULL, 0, 0, &t0);
         if (p->error_flags == BINSON_ERROR_NONE) walk(&g, p, doc, (size_t) len, 'O', false, -1);
+        if (binson_parser_reset(p)) { int x = transcribe_doc(p, doc, (size_t) len, 'O'); fprintf(OUTF, "{\"e\":\"xc\",\"ret\":%d}\n", x); nevents++; }
         free(st); free(p); free(doc); done++;
     }
     return done;
@@ -243,6 +278,9 @@ int main(int argc, char **argv)
          * verify leaves a fresh parser, so the walk below is unaffected */
         { track_t t0; memset(&t0, 0, sizeof t0); t0.fresh = true; call_op(p, doc, x.n, "v", NULL, 0, 0, &t0); }
         walk(&g, p, doc, x.n, root, kind == 2, d < 10 ? (d < 8 ? -2 : 8) : (kind != 2 && rng_chance(&r, 1, 3)) ? -1 : 4 + (int) rng_below(&r, 60));
+        if (kind == 0 && rng_chance(&r, 1, 2) && binson_parser_reset(p)) {   /* C10: decode-then-encode must reproduce the document */
+            int xr = transcribe_doc(p, doc, x.n, root); fprintf(OUTF, "{\"e\":\"xc\",\"ret\":%d}\n", xr); nevents++;
+        }
         if (rng_chance(&r, 1, 3)) {           /* second pass on the same object after reset/verify (C12) */
             track_t t; memset(&t, 0, sizeof t); t.fresh = true;
             call_op(p, doc, x.n, rng_chance(&r, 1, 2) ? "v" : "rs", NULL, 0, 0, &t);
